@@ -364,27 +364,10 @@ func RunCase(ops []Op, enforce bool) []StepObs {
 		case 'P':
 			b, _ := json.Marshal(renderApp(op.App))
 			err = adminErr(adminDo("PATCH", "/config/apps/"+appKey(op.App.Name), b))
-			if running != nil {
-				c := Cfg{running.Top, running.Logs, nil}
-				for _, a := range running.Apps {
-					if a.Name == op.App.Name {
-						a = op.App
-					}
-					c.Apps = append(c.Apps, a)
-				}
-				attempted = &c
-			}
+			attempted = Attempted(op, running)
 		case 'D':
 			err = adminErr(adminDo("DELETE", "/config/apps/"+appKey(op.Name), nil))
-			if running != nil {
-				c := Cfg{running.Top, running.Logs, nil}
-				for _, a := range running.Apps {
-					if a.Name != op.Name {
-						c.Apps = append(c.Apps, a)
-					}
-				}
-				attempted = &c
-			}
+			attempted = Attempted(op, running)
 		case 'J':
 			err = adminErr(adminDo("POST", "/config/", []byte("{not json")))
 		case 'V':
@@ -411,6 +394,14 @@ func RunCase(ops []Op, enforce bool) []StepObs {
 			}
 		} else {
 			o.Res = classify(err)
+		}
+		mu.Lock()
+		quiet := len(evlog) == 0
+		mu.Unlock()
+		if o.Res == "ok" && quiet && (op.Kind == 'L' || op.Kind == 'P' || op.Kind == 'D') {
+			// accepted without a single probe event (every real load provisions the config
+			// loader): changeConfig found the configuration unchanged
+			o.Res = "same"
 		}
 		// what should be running now, by the harness's own bookkeeping
 		switch {
@@ -562,3 +553,69 @@ func RunCaseEnforced(ops []Op) []StepObs {
 }
 
 var _ = context.Background
+
+// ---------------------------------------------------------------- helpers for the oracles
+
+func AddrString(a int) string { return addrs[a] }
+
+func WantSocks(running *Cfg) map[int][]int { return wantSocks(running) }
+
+func SocksEqual(o StepObs, want map[int][]int) bool { return socksEqual(&o, want) }
+
+func ShowWant(want map[int][]int) string {
+	var parts []string
+	for a := 0; a < NAddr; a++ {
+		if w := want[a]; len(w) > 0 {
+			parts = append(parts, fmt.Sprintf("%d:%d:%s", a, len(w), showNats(sortDedupInts(w))))
+		}
+	}
+	if len(parts) == 0 {
+		return "-"
+	}
+	return strings.Join(parts, ",")
+}
+
+// Attempted is the whole configuration an operation tries to install, given what the spec
+// says is running (nil if the operation cannot apply).
+func Attempted(op Op, running *Cfg) *Cfg {
+	switch op.Kind {
+	case 'L':
+		c := op.Cfg
+		return &c
+	case 'P':
+		if running == nil {
+			return nil
+		}
+		c := Cfg{running.Top, running.Logs, nil}
+		found := false
+		for _, a := range running.Apps {
+			if a.Name == op.App.Name {
+				a = op.App
+				found = true
+			}
+			c.Apps = append(c.Apps, a)
+		}
+		if !found {
+			return nil
+		}
+		return &c
+	case 'D':
+		if running == nil {
+			return nil
+		}
+		c := Cfg{running.Top, running.Logs, nil}
+		found := false
+		for _, a := range running.Apps {
+			if a.Name == op.Name {
+				found = true
+				continue
+			}
+			c.Apps = append(c.Apps, a)
+		}
+		if !found {
+			return nil
+		}
+		return &c
+	}
+	return nil
+}
